@@ -47,6 +47,25 @@ def main():
                             pass
         return out
 
+    import hashlib as _hashlib
+
+    def module_data():
+        """every piece of plain data bound at module level anywhere in the library (a memo, a remembered format, a set of
+        things already reported ...): a call may not leave any of it changed"""
+        out = {}
+        plain = (type(None), bool, int, float, str, bytes, tuple, list, dict, set, frozenset)
+        for mname, mod in list(sys.modules.items()):
+            if not (mname == "visions" or mname.startswith("visions.")) or mod is None:
+                continue
+            for k, v in list(vars(mod).items()):
+                if k.startswith("__") or not isinstance(v, plain):
+                    continue
+                try:
+                    out[mname + "." + k] = _hashlib.md5(repr(v)[:20000].encode("utf-8", "replace")).hexdigest()
+                except Exception:
+                    pass
+        return out
+
     def snapshot():
         try:
             opts = {k: repr(pd.get_option(k)) for k in ("mode.copy_on_write", "mode.chained_assignment", "display.max_rows",
@@ -63,7 +82,7 @@ def main():
                 "filters": repr(warnings.filters), "np": repr(np.geterr()), "pd": opts, "cwd": os.getcwd(),
                 "locale": repr(locale.getlocale()), "env": len(os.environ), "showwarning": warnings.showwarning.__name__,
                 "relids": {str(t): id(t._relations) for t in ALL if t._relations is not None},
-                "registries": registries()}
+                "registries": registries(), "module_data": module_data()}
 
     def diff(a, b):
         d = []
@@ -72,6 +91,14 @@ def main():
                 for t, i in a[k].items():
                     if b[k].get(t) != i:
                         d.append("relations-cache-replaced:" + t)
+            elif k == "module_data":
+                for t, n in a[k].items():
+                    if b[k].get(t) != n:
+                        d.append("module-global-changed:" + t)
+                seen = set(t.rsplit(".", 1)[0] for t in a[k])
+                for t in b[k]:
+                    if t not in a[k] and t.rsplit(".", 1)[0] in seen:      # (a module imported during the call is not a change)
+                        d.append("module-global-added:" + t)
             elif k == "registries":
                 for t, n in a[k].items():
                     if t in b[k] and b[k][t] != n:
